@@ -307,6 +307,7 @@ func checkC05(c *Ctx) {
 	c.ruleInboundQoS2("C05-R3")
 	c.ruleAckEncodesInCallback("C05-R4")
 	c.ruleAckRouting("C05-R5", []string{"PubRel"})
+	c.ruleDirectionKeys("C05-R6")
 }
 
 // boxedType returns the static type of the concrete value boxed into an interface argument.
@@ -648,7 +649,7 @@ func (c *Ctx) ruleAckRouting(id string, typeNames []string) {
 		key := "arm *packet." + tn + " of " + c.fname(disp)
 		found := false
 		detail := "no ack.Queue.Ack call receives the *packet." + tn + " taken from the dispatched packet"
-		for _, cl := range core.CallsTo(disp, q.ack) {
+		for _, cl := range c.callsToDeep(disp, 3, q.ack) {
 			if !isNamed(boxedType(cl.Arg(1)), pkgPacket, tn) {
 				continue
 			}
@@ -656,14 +657,143 @@ func (c *Ctx) ruleAckRouting(id string, typeNames []string) {
 				detail = "the packet given to Ack is not the dispatched packet"
 				continue
 			}
-			pre := core.Strip(cl.Arg(0))
-			pc, ok := pre.(*ssa.Call)
-			if !ok || !core.CallOf(pc).Is(sid) || !reachesParam(pc.Call.Args[0], disp, sessIdx) {
+			// the key prefix is derived from the sending session's own ID() (possibly with a direction suffix)
+			if !depReaches(cl.Arg(0), func(v ssa.Value) bool {
+				pc, ok := v.(*ssa.Call)
+				return ok && core.CallOf(pc).Is(sid) && reachesParam(pc.Call.Args[0], disp, sessIdx)
+			}) {
 				detail = "Ack is not keyed by the sending session's own ID()"
 				continue
 			}
 			found = true
 		}
 		ru.Check(found, key, c.where(disp, disp), "routed to ack.Queue.Ack(session.ID(), packet)", detail)
+	}
+}
+
+// keyShape renders the in-flight table prefix handed to Insert/Ack with the session abstracted away, so that the
+// prefixes used at different sites can be compared: ID(S), ID(S)+"/in", …; module helpers are seen through.
+func (c *Ctx) keyShape(v ssa.Value, depth int) string {
+	v = core.Strip(v)
+	if depth > 6 {
+		return "?"
+	}
+	switch x := v.(type) {
+	case *ssa.Const:
+		if x.Value != nil {
+			return x.Value.ExactString()
+		}
+		return "nil"
+	case *ssa.BinOp:
+		if x.Op == token.ADD {
+			return c.keyShape(x.X, depth+1) + "+" + c.keyShape(x.Y, depth+1)
+		}
+	case *ssa.Parameter:
+		if isNamed(x.Type(), "wasp/sessions", "Session") {
+			return "S"
+		}
+		if args := callerArgs(x); len(args) == 1 {
+			return c.keyShape(args[0], depth+1)
+		}
+		return "param:" + x.Name()
+	case *ssa.Call:
+		cl := core.CallOf(x)
+		if cl.Obj != nil && cl.Static == nil || (cl.Static != nil && (cl.Static.Pkg == nil || !c.P.IsModPkg(cl.Static.Pkg.Pkg) || cl.Static.Signature.Recv() != nil)) {
+			s := ""
+			if cl.Obj != nil {
+				s = cl.Obj.Name()
+			}
+			s += "("
+			for i, a := range x.Call.Args {
+				if i > 0 {
+					s += ","
+				}
+				s += c.keyShape(a, depth+1)
+			}
+			return s + ")"
+		}
+		if cl.Static != nil {
+			// a module helper that builds the prefix: the shape of what it returns
+			rvs := returnValues(cl.Static)
+			if len(rvs) == 1 {
+				return c.keyShape(rvs[0], depth+1)
+			}
+		}
+	case *ssa.UnOp, *ssa.Extract, *ssa.Phi:
+		if isNamed(v.Type(), "wasp/sessions", "Session") {
+			return "S"
+		}
+	}
+	if isNamed(v.Type(), "wasp/sessions", "Session") {
+		return "S"
+	}
+	return "?" + short(core.Term(v), 40)
+}
+
+// ruleDirectionKeys: exchanges started by the client and exchanges started by the broker use disjoint keys of the shared in-flight table.
+func (c *Ctx) ruleDirectionKeys(id string) {
+	ru := c.R.Rule(id, "client and broker choose packet identifiers independently, so in the shared in-flight table the exchanges started by the client (PUBREC registered for its QoS 2 PUBLISH, completed by its PUBREL) and those started by the broker (PUBLISH / PUBREL registered, completed by PUBACK / PUBREC / PUBCOMP) are keyed with different prefixes, and each acknowledgement type is routed with the prefix of its direction: otherwise equal identifiers in the two directions collide — a delivery is refused as duplicate and lost, or the client's own publish is refused", "E10 agreement between the registration sites and the acknowledgement routing on the key prefix (shape with the session abstracted)", 3)
+	q := c.queueAnchors(ru)
+	if q == nil {
+		return
+	}
+	in, out := map[string]bool{}, map[string]bool{}
+	var inAt, outAt *core.Call
+	for _, cl := range c.insertSites(q, "PubRec") {
+		in[c.keyShape(cl.Arg(0), 0)] = true
+		inAt = cl
+		c.R.Fn(c.fname(cl.Instr.Parent()))
+	}
+	for _, cl := range c.insertSites(q, "Publish", "PubRel") {
+		out[c.keyShape(cl.Arg(0), 0)] = true
+		outAt = cl
+		c.R.Fn(c.fname(cl.Instr.Parent()))
+	}
+	if !ru.Anchor(inAt != nil, "a registration of a PUBREC (client-started QoS 2 exchange)") || !ru.Anchor(outAt != nil, "a registration of an outbound PUBLISH / PUBREL") {
+		return
+	}
+	shapes := func(m map[string]bool) string {
+		var ks []string
+		for k := range m {
+			ks = append(ks, k)
+		}
+		sortStrings(ks)
+		return fmt.Sprint(ks)
+	}
+	bad := ""
+	for k := range in {
+		if out[k] {
+			bad = fmt.Sprintf("both directions register their exchanges under the prefix %s (client-started at %s, broker-started at %s): a client publishing QoS 2 with identifier n while the broker has delivery n in flight to it makes one of the two be refused as a duplicate", k, c.whereI(inAt.Instr), c.whereI(outAt.Instr))
+		}
+	}
+	ru.Check(bad == "", "prefixes of client-started vs broker-started registrations", c.whereI(inAt.Instr), "client-started "+shapes(in)+", broker-started "+shapes(out), bad)
+	// routing of acknowledgements
+	sites := c.modFuncsCalling(q.ack)
+	for _, f := range sortedFuncs(sites) {
+		if f.Package() != nil && f.Package().Pkg.Path() == c.P.Rel("wasp/ack") {
+			continue
+		}
+		for _, cl := range sites[f] {
+			t := boxedType(cl.Arg(1))
+			var want map[string]bool
+			dir := ""
+			switch {
+			case isNamed(t, pkgPacket, "PubRel"):
+				want, dir = in, "client-started"
+			case isNamed(t, pkgPacket, "PubAck"), isNamed(t, pkgPacket, "PubRec"), isNamed(t, pkgPacket, "PubComp"):
+				want, dir = out, "broker-started"
+			default:
+				continue
+			}
+			c.R.Fn(c.fname(f))
+			n, _ := derefT(t).(*types.Named)
+			name := "?"
+			if n != nil {
+				name = n.Obj().Name()
+			}
+			key := "prefix used to acknowledge with a " + name + " in " + c.fname(f)
+			sh := c.keyShape(cl.Arg(0), 0)
+			ru.Check(want[sh], key, c.whereI(cl.Instr), "routed with the "+dir+" prefix "+sh, fmt.Sprintf("a %s completes a %s exchange, registered under %s, but is looked up under %s: the exchange is never completed", name, dir, shapes(want), sh))
+		}
 	}
 }
